@@ -1,8 +1,114 @@
-/- line-protocol handlers for C06 (stub: not built yet) -/
+/- line-protocol handlers for C06 (closed-form boundaries, partial transpose, interpolation, CHA data) -/
 import Driver.Loop
+import NumqiModel.Boundary
 
 namespace Numqi.Driver.C06
+open Numqi Numqi.Boundary
 
-def handle (_args : List String) : String := "bad-op"
+def fbits? (s : String) : Option Float := do
+  let b ← s.toNat?
+  if b ≥ 2^64 then none else some (Float.ofBits b.toUInt64)
+
+def fstr (x : Float) : String := toString x.toBits.toNat
+
+def ratStr (r : Rat) : String := s!"{r.num}/{r.den}"
+def qiStr (a : QI) : String := s!"{ratStr a.re},{ratStr a.im}"
+
+def ratBits? (s : String) : Option Rat := do
+  let b ← s.toNat?
+  if b / 2^52 % 2048 = 2047 then none else some (ratOfFloatBits b)
+
+/-- `"a,b"` with binary64 bit patterns ↦ exact Gaussian rational -/
+def qiBits? (s : String) : Option QI :=
+  match s.splitOn "," with
+  | [a, b] => do let x ← ratBits? a; let y ← ratBits? b; pure ⟨x, y⟩
+  | _ => none
+
+def qiBitsList? (s : String) : Option (List QI) :=
+  if s = "-" || s = "" then some [] else (s.splitOn ";").mapM qiBits?
+
+def vecOf {α : Type} [Zero α] (n : Nat) (l : List α) : Fin n → α :=
+  let a := l.toArray
+  fun i => a.getD i.val 0
+
+def matOf {α : Type} [Zero α] (n : Nat) (l : List α) : Fin n → Fin n → α :=
+  let a := l.toArray
+  fun r c => a.getD (r.val * n + c.val) 0
+
+def matFlat {α : Type} (n : Nat) (M : Fin n → Fin n → α) : List α :=
+  (List.finRange n).flatMap fun r => (List.finRange n).map fun c => M r c
+
+def qiOfNatInv (n : Nat) : QI := ⟨(1 : Rat) / (n : Int), 0⟩
+def qiHalf : QI := ⟨(1 : Rat) / 2, 0⟩
+
+def handle (args : List String) : String :=
+  match args with
+  | ["dmb", n, emin, emax, norm] => Id.run do
+      let some n := fbits? n | return "bad-op"
+      let some emin := fbits? emin | return "bad-op"
+      let some emax := fbits? emax | return "bad-op"
+      let some norm := fbits? norm | return "bad-op"
+      let r := dmBoundary n emin emax norm
+      return fstr r.1 ++ " " ++ fstr r.2
+  | ["pptb", w, a, b, c, d] => Id.run do
+      let some a := fbits? a | return "bad-op"
+      let some b := fbits? b | return "bad-op"
+      let some c := fbits? c | return "bad-op"
+      let some d := fbits? d | return "bad-op"
+      if w ≠ "0" && w ≠ "1" then return "bad-op"
+      let r := pptBoundary (w = "1") (a, b) (c, d)
+      return fstr r.1 ++ " " ++ fstr r.2
+  | ["pt", dA, dB, l] => Id.run do
+      let some dA := dA.toNat? | return "bad-op"
+      let some dB := dB.toNat? | return "bad-op"
+      let some l := parseGIntList? l | return "bad-op"
+      if l.length ≠ dA * dB * (dA * dB) then return "bad-op"
+      return gintListStr (toFlat dA dB (ptB (ofFlat dA dB l)))
+  | ["gmnorm2", n, l] => Id.run do
+      let some n := n.toNat? | return "bad-op"
+      let some l := parseGIntList? l | return "bad-op"
+      if n = 0 || l.length ≠ n * n then return "bad-op"
+      let r := gmNorm2 (qiOfNatInv n) qiHalf (matOf n (l.map QI.ofGInt))
+      return qiStr r
+  | ["interp", n, alpha, l] => Id.run do
+      let some n := n.toNat? | return "bad-op"
+      let some alpha := ratBits? alpha | return "bad-op"
+      let some l := parseGIntList? l | return "bad-op"
+      if n = 0 || l.length ≠ n * n then return "bad-op"
+      let M := interp (qiOfNatInv n) (⟨alpha, 0⟩ : QI) (matOf n (l.map QI.ofGInt))
+      return ";".intercalate ((matFlat n M).map qiStr)
+  | ["interpb", n, beta, norm, l] => Id.run do
+      let some n := n.toNat? | return "bad-op"
+      let some beta := ratBits? beta | return "bad-op"
+      let some norm := ratBits? norm | return "bad-op"
+      let some l := parseGIntList? l | return "bad-op"
+      if n = 0 || l.length ≠ n * n || norm = 0 then return "bad-op"
+      -- `alpha = beta / dm_norm` (exact here; the implementation rounds once)
+      let M := interp (qiOfNatInv n) (⟨beta / norm, 0⟩ : QI) (matOf n (l.map QI.ofGInt))
+      return ";".intercalate ((matFlat n M).map qiStr)
+  | ["charow", dA, dB, a, b] => Id.run do
+      let some dA := dA.toNat? | return "bad-op"
+      let some dB := dB.toNat? | return "bad-op"
+      let some a := parseGIntList? a | return "bad-op"
+      let some b := parseGIntList? b | return "bad-op"
+      if dA * dB = 0 || a.length ≠ dA || b.length ≠ dB then return "bad-op"
+      let M := chaRow (qiOfNatInv (dA * dB)) (vecOf dA (a.map QI.ofGInt)) (vecOf dB (b.map QI.ofGInt))
+      return ";".intercalate ((toFlat dA dB M).map qiStr)
+  | ["mixture", dA, dB, k, lam, a, b] => Id.run do
+      -- exact value of `Σ_i λ_i |a_i b_i⟩⟨a_i b_i|` for binary64 inputs (bit patterns)
+      let some dA := dA.toNat? | return "bad-op"
+      let some dB := dB.toNat? | return "bad-op"
+      let some k := k.toNat? | return "bad-op"
+      let some lam := (if lam = "-" then some [] else (lam.splitOn ";").mapM ratBits?) | return "bad-op"
+      let some a := qiBitsList? a | return "bad-op"
+      let some b := qiBitsList? b | return "bad-op"
+      if lam.length ≠ k || a.length ≠ k * dA || b.length ≠ k * dB then return "bad-op"
+      let la := (lam.map fun r => (⟨r, 0⟩ : QI)).toArray
+      let aa := a.toArray
+      let ba := b.toArray
+      let M := mixture (K := k) (fun i => la.getD i.val 0) (fun i j => aa.getD (i.val * dA + j.val) 0)
+        (fun i j => ba.getD (i.val * dB + j.val) 0)
+      return ";".intercalate ((toFlat dA dB M).map qiStr)
+  | _ => "bad-op"
 
 end Numqi.Driver.C06
